@@ -7,7 +7,7 @@ use crate::verif_vk as vk;
 use crate::verif_vk::vcover;
 use crate::verif_sup::*;
 use crate::store::{Store, TaskNode, ResourceNode};
-use crate::task::{AlwaysConsistent, EqualsChecker};
+use crate::task::EqualsChecker;
 use crate::dependency::{Dependency, ResourceDependency, TaskDependency, TaskDependencyObj};
 use crate::{Context, Pie, ResourceState, Task};
 
@@ -36,7 +36,7 @@ fn build(store: &mut Store, sh: u8) -> [TaskNode; NT] {
   let mut i = 0;
   while i < e.len() {
     let (a, b) = e[i];
-    assert!(store.add_dependency(&n[a], &n[b], TaskDependency::new(P(b as u8), AlwaysConsistent, ()).into_require()).is_ok(), "harness: acyclic");
+    assert!(store.add_dependency(&n[a], &n[b], TaskDependency::new(P(b as u8), AlwaysOk, ()).into_require()).is_ok(), "harness: acyclic");
     i += 1;
   }
   n
@@ -44,7 +44,7 @@ fn build(store: &mut Store, sh: u8) -> [TaskNode; NT] {
 fn idx(n: &[TaskNode; NT], x: &TaskNode) -> usize { let mut i = 0; while i < NT { if n[i] == *x { return i; } i += 1; } NT }
 /// Orders in which a subset of tasks is added to the queue (with a duplicate).
 fn add_order(id: u8) -> &'static [usize] {
-  match id { 0 => &[0, 1, 2, 3], 1 => &[3, 2, 1, 0, 3], 2 => &[1, 3, 1], 3 => &[2, 0, 3], 4 => &[0, 2], _ => &[3, 0, 1] }
+  match id { 0 => &[0, 1, 2, 3], 1 => &[3, 2, 1, 0, 3], 2 => &[1, 3, 1], 3 => &[2, 0, 3], 4 => &[0, 2], 5 => &[3, 0, 1], 6 => &[1, 2, 3], _ => &[0, 3, 1, 2] }
 }
 
 /// `pop` never returns a task that (transitively) requires a task still queued; every queued task comes out exactly once.
@@ -53,7 +53,7 @@ fn run_queue(sh: u8, lead: bool) {
   let mut store = Store::default();
   let n = build(&mut store, sh);
   let cl = closure(shape(sh));
-  split(6, |ord| { split(if lead { NT as u8 } else { 1 }, |src| {
+  split(8, |ord| { split(if lead { NT as u8 } else { 1 }, |src| {
     let mut q: Queue = Queue::new();
     let order = add_order(ord);
     let mut queued = [false; NT];
@@ -93,15 +93,15 @@ fn run_queue(sh: u8, lead: bool) {
   }); });
   ::std::mem::forget(store);
 }
-//@h props=C04 tier=quick unwind=14 stubs=sort,optref,boxslice timeout=900 fieldsens=1024
+//@h props=C04 tier=quick unwind=14 stubs=sort,boxslice timeout=900 fieldsens=1024
 fn bu_queue_pop_chain() { run_queue(0, false); }
-//@h props=C04 tier=quick unwind=14 stubs=sort,optref,boxslice timeout=900 fieldsens=1024
+//@h props=C04 tier=quick unwind=14 stubs=sort,boxslice timeout=900 fieldsens=1024
 fn bu_queue_pop_reversed_chain() { run_queue(1, false); }
-//@h props=C04 tier=quick unwind=14 stubs=sort,optref,boxslice timeout=900 fieldsens=1024
+//@h props=C04 tier=quick unwind=14 stubs=sort,boxslice timeout=900 fieldsens=1024
 fn bu_queue_pop_diamond() { run_queue(2, false); }
-//@h props=C04 tier=quick unwind=14 stubs=sort,optref,boxslice timeout=1200 fieldsens=1024
+//@h props=C04 tier=quick unwind=14 stubs=sort,boxslice timeout=1200 fieldsens=1024
 fn bu_queue_require_now_then_pop_chain() { run_queue(0, true); }
-//@h props=C04 tier=quick unwind=14 stubs=sort,optref,boxslice timeout=1200 fieldsens=1024
+//@h props=C04 tier=quick unwind=14 stubs=sort,boxslice timeout=1200 fieldsens=1024
 fn bu_queue_require_now_then_pop_pairs() { run_queue(3, true); }
 // (catalogue entry, not registered: not run to completion within this session's budget)
 #[allow(dead_code)]
@@ -115,7 +115,7 @@ fn bu_queue_pop_independent() { run_queue(4, false); }
 
 /// Scheduling by a changed resource: a reader and a writer of Cell(0) are each scheduled iff their own checker reports
 /// inconsistency, or fails (then the error is reported as well); consistent ones are not scheduled.
-//@h props=C04,C18,C09:t tier=quick unwind=14 stubs=sort,optref,boxslice timeout=900 fieldsens=1024
+//@h props=C04,C18,C09:t tier=quick unwind=14 stubs=sort,boxslice timeout=900 fieldsens=1024
 fn bu_schedule_affected_by_resource_iff_inconsistent() {
   let mut pie = Pie::with_tracker(());
   pie.resource_state_mut::<Cell>().set(CellState { v: CUR });
@@ -137,7 +137,7 @@ fn bu_schedule_affected_by_resource_iff_inconsistent() {
     let (rm, rs, r_sched, r_err) = mk(rc);
     let (wm, ws, w_sched, w_err) = mk(if wc == 2 { 4 } else { wc });
     let _ = si.store.add_dependency(&t_w, &r, ResourceDependency::new(Cell(0), ModeChecker { mode: wm }, ws).into_write());
-    assert!(si.store.add_dependency(&t_r, &t_w, TaskDependency::new(P(1), AlwaysConsistent, ()).into_require()).is_ok());
+    assert!(si.store.add_dependency(&t_r, &t_w, TaskDependency::new(P(1), AlwaysOk, ()).into_require()).is_ok());
     let _ = si.store.add_dependency(&t_r, &r, ResourceDependency::new(Cell(0), ModeChecker { mode: rm }, rs).into_read());
     if r_err || w_err { unsafe { FAULT[0] = true; } }
     log_reset();
@@ -157,7 +157,7 @@ fn bu_schedule_affected_by_resource_iff_inconsistent() {
 /// The decision whether a requirer is scheduled after the required task produced `new_out`: consistent iff the
 /// dependency's own output checker accepts the new output against its stamp (early cut-off); an output of another type is
 /// never accepted.
-//@h props=C04,C09:t tier=quick unwind=14 stubs=sort,optref,boxslice timeout=600 fieldsens=1024
+//@h props=C04,C09:t tier=quick unwind=14 stubs=sort,boxslice timeout=600 fieldsens=1024
 fn bu_require_dependency_consistent_iff_checker_accepts() {
   let mut pie = Pie::with_tracker(Rec::default());
   let mut s = pie.new_session();
@@ -167,13 +167,38 @@ fn bu_require_dependency_consistent_iff_checker_accepts() {
     let requiring = P(0);
     let res = match k {
       0 => TaskDependency::new(P(1), EqualsChecker, stamp).is_consistent_bottom_up(&new_out, &requiring, &mut si.tracker),
-      1 => TaskDependency::new(P(1), AlwaysConsistent, ()).is_consistent_bottom_up(&new_out, &requiring, &mut si.tracker),
+      1 => TaskDependency::new(P(1), AlwaysOk, ()).is_consistent_bottom_up(&new_out, &requiring, &mut si.tracker),
       _ => TaskDependency::new(P(1), EqualsChecker, stamp).is_consistent_bottom_up(&(new_out as u16), &requiring, &mut si.tracker),
     };
     let expect = match k { 0 => stamp == new_out, 1 => true, _ => false };
     assert!(res == expect, "C04/C09 require dependency consistent bottom-up iff its own checker accepts the new output");
     vcover!(k == 0 && res, "early cut-off: equal output accepted");
     vcover!(k == 0 && !res, "changed output rejected");
+  });
+  ::std::mem::forget(pie);
+}
+
+/// C18: a checker failure found while the task is ALREADY scheduled (for another changed resource) is still reported.
+//@h props=C18,C04 tier=quick unwind=14 stubs=sort,boxslice timeout=900 fieldsens=1024
+fn bu_schedule_error_reported_when_task_already_scheduled() {
+  let mut pie = Pie::with_tracker(());
+  pie.resource_state_mut::<Cell>().set(CellState { v: CUR });
+  let mut s = pie.new_session();
+  split(2, |order| {
+    let si = &mut s.0;
+    let t = si.store.get_or_create_task_node(&P(0));
+    let r0 = si.store.get_or_create_resource_node(&Cell(0));
+    let r1 = si.store.get_or_create_resource_node(&Cell(1));
+    let _ = si.store.add_dependency(&t, &r0, ResourceDependency::new(Cell(0), ModeChecker { mode: M_FAILING }, abs(M_FAILING, CUR[0])).into_read());
+    let _ = si.store.add_dependency(&t, &r1, ResourceDependency::new(Cell(1), ModeChecker { mode: M_EXACT }, abs(M_EXACT, Some(1))).into_read());
+    unsafe { FAULT[0] = true; }
+    let mut ctx = BottomUpContext::new(si);
+    if order == 0 { ctx.schedule_tasks_affected_by(&Cell(1)); ctx.schedule_tasks_affected_by(&Cell(0)); }
+    else { ctx.schedule_tasks_affected_by(&Cell(0)); ctx.schedule_tasks_affected_by(&Cell(1)); }
+    assert!(ctx.scheduled.set.contains(&t), "C18/C04 the task is scheduled");
+    assert!(ctx.session.dependency_check_errors.len() == 1, "C18 the checker failure is reported, whether or not the task was already scheduled");
+    let mut n = 0; while ctx.scheduled.pop(&ctx.session.store).is_some() { n += 1; }
+    assert!(n == 1, "C04 scheduled once");
   });
   ::std::mem::forget(pie);
 }
